@@ -177,9 +177,22 @@ def replay_obj(p, fm, ci, txt):
             "model_result": txt[:3000], "source": p["Src"],
             "rerun": "VERIF_SEED=%d ./check C01 --tier %s   (program %s)" % (ck.seed, ck.tier, p["Name"])}
 
-for p, fm, ci, txt in mismatches[:40]:
+def vkey(prefix, p, d, ci, fm):
+    # corpus programs: one key per function (a corpus function is one fixed scenario with fixed inputs);
+    # generated programs: program seed + function + case + form
+    if p["Origin"] == "corpus":
+        return "%scorpus:%s:%s" % (prefix, p["Name"], d["function"])
+    return "%s%s:%s:%s:%s:%s" % (prefix, p["Origin"], p["Seed"], d["function"], ci, fm)
+
+seen_keys = set()
+nreported = 0
+for p, fm, ci, txt in mismatches:
     d = case_desc(p, ci)
-    key = "%s:%s:%s:%s:%s" % (p["Origin"], p["Name"] if p["Origin"] == "corpus" else p["Seed"], d["function"], ci, fm)
+    key = vkey("", p, d, ci, fm)
+    if key in seen_keys or nreported >= 40:
+        continue
+    seen_keys.add(key)
+    nreported += 1
     ck.violation(key, "IR (%s) of %s.%s disagrees with the compiled program on input {%s}: model says %s" % (
         FORMNAME[fm], p["Name"], d["function"], d["inputs"], re.sub(r"\s+", " ", txt)[:400]), replay_obj(p, fm, ci, txt))
 # OutOfFuel: the compiled program terminated.  If the fuel exceeds 20x the longest agreeing execution of the
@@ -193,14 +206,20 @@ for p, fm, ci, txt in fuel_cases:
         if reported_div > 40:
             continue
         d = case_desc(p, ci)
-        key = "diverges:%s:%s:%s:%s:%s" % (p["Origin"], p["Name"] if p["Origin"] == "corpus" else p["Seed"], d["function"], ci, fm)
+        key = vkey("diverges:", p, d, ci, fm)
+        if key in seen_keys:
+            continue
+        seen_keys.add(key)
         ck.violation(key, "executing the IR (%s) of %s.%s on input {%s} does not terminate within %d steps (longest agreeing execution of this program: %d steps) while the compiled program terminated" % (
             FORMNAME[fm], p["Name"], d["function"], d["inputs"], FUEL, prog_max_steps.get(p["Name"], 0)), replay_obj(p, fm, ci, txt))
     else:
         discards["fuel"] += 1
 for p, fm, ci, txt in stuck[:40]:
     d = case_desc(p, ci)
-    key = "stuck:%s:%s:%s:%s:%s" % (p["Origin"], p["Name"] if p["Origin"] == "corpus" else p["Seed"], d["function"], ci, fm)
+    key = vkey("stuck:", p, d, ci, fm)
+    if key in seen_keys:
+        continue
+    seen_keys.add(key)
     ck.violation(key, "executing the IR (%s) of %s.%s on input {%s} gets stuck (%s): ill-formed IR or an operand of the wrong shape" % (
         FORMNAME[fm], p["Name"], d["function"], d["inputs"], re.sub(r"\s+", " ", txt)[:200]), replay_obj(p, fm, ci, txt))
 
